@@ -20,7 +20,7 @@ RULE = ("(encoder level, exhaustive) for eco-mode v1 and v2 groups x every prior
 ASSUMPTIONS = ["v1 groups carry no SoC and encode_discharge takes none: SoC is asserted for v2 ECO_CHARGE only",
                "a limit whose encoding is the all-ones 'no value' sentinel (65535) is outside the readable domain",
                "a setter that raises (e.g. ES with undecodable prior eco registers) has not 'succeeded': nothing is asserted then"]
-MUST = ["background_poller_during_setters", "same_mode_repeated", "setter_with_refused_write", "polls_between_setters", "encoder_roundtrips", "mode_roundtrips", "eco_charge_checked", "eco_discharge_checked", "groups_off_checked",
+MUST = ["roundtrips_in_each_mode", "background_poller_during_setters", "same_mode_repeated", "setter_with_refused_write", "polls_between_setters", "encoder_roundtrips", "mode_roundtrips", "eco_charge_checked", "eco_discharge_checked", "groups_off_checked",
         "export_limit_roundtrips", "dod_roundtrips", "prior_nonempty_types", "es_modes", "et_745", "et_v1"]
 EXHAUSTIVE = {"quick": False, "thorough": False}
 
@@ -120,6 +120,7 @@ def e2e_part(spec, part):
             sim = models.et_sim(tag=tag, refused_blocks=refused)
             sim.regs[47000] = rnd.randrange(0, 6)
             sim.regs[35184] = rnd.choice((0, 1, 2))        # battery mode (0 = no battery seen by the polls)
+            sim.regs[45358] = rnd.randrange(0, 100)        # (off-line depth of discharge: another setting, another register)
             v2 = variant != "v1"
         else:
             # (v1 = ARM fw 5: oldest command set; v1arm = ARM fw 14 but DSP too old for eco-mode v2: the middle branch of the ES mode setters)
@@ -215,6 +216,23 @@ def e2e_part(spec, part):
                 if variant == "v1" and fam == "ET":
                     part.count("et_v1")
                 steps.append((m.name, got.name if got is not None else None))
+                if got == m and rnd.random() < 0.5:
+                    # the other setters round-trip whatever mode the inverter is in
+                    d_ = rnd.randrange(0, 101)
+                    x_ = rnd.randrange(0, 10000)
+                    try:
+                        await inv.set_ongrid_battery_dod(d_)
+                        gd = await inv.get_ongrid_battery_dod()
+                        await inv.set_grid_export_limit(x_)
+                        gx = await inv.get_grid_export_limit()
+                    except Exception as e:      # noqa
+                        part.violate(f"C19/{fam}/run-failed/{type(e).__name__}", f"{tagtxt}: DoD / export limit round trip in mode {m.name}: {e!r}", case)
+                        gd, gx = d_, x_
+                    part.count("roundtrips_in_each_mode")
+                    if gd != d_:
+                        part.violate(f"C19/{fam}/dod-roundtrip", f"{tagtxt}: in mode {m.name}: set_ongrid_battery_dod({d_}) then get = {gd}", case)
+                    if gx != x_:
+                        part.violate(f"C19/{fam}/export-limit-roundtrip", f"{tagtxt}: in mode {m.name}: set_grid_export_limit({x_}) then get = {gx}", case)
                 if got != m:
                     key = f"C19/{fam}/mode-roundtrip/{m.name}"
                     # known mechanism: ECO leaves the groups alone; a pre-existing all-day/all-week enabled group 1 makes the
